@@ -151,6 +151,12 @@ def page_classes():
     c['rd_idna_long'] = _p(redirect(b'http://' + b'a' * 70 + b'.test/'))
     c['rd_loop'] = _p(redirect(b'http://b.test/h'))
     c['rd_unresolvable'] = _p(redirect(b'http://\xff\xfe.nowhere/'))
+    # a request WITH A BODY (--post-data) answered with a redirect: 307 / 308 replay the request, 302 turns it into a GET
+    for code in (b'302', b'307', b'308'):
+        c['rd_%s_post' % code.decode()] = _p(redirect(b'http://a.test/p3', code), argv=['--post-data', 'x=1'])
+    # redirects to URLs that no HTTP client can fetch
+    c['rd_mailto'] = _p(redirect(b'mailto:webmaster@b.test'))
+    c['rd_data_url'] = _p(redirect(b'data:text/html,hello'))
     c['ck_garbage'] = _p(resp(headers=(b'Set-Cookie: \x00=\xff; expires=garbage; max-age=abc; domain=..; path=\x00',
                                        b'Set-Cookie: =', b'Set-Cookie: ;;;=;', b'Set-Cookie2: x')))
     c['ck_huge'] = _p(resp(headers=(b'Set-Cookie: a=' + b'x' * 20000,)))
@@ -206,6 +212,12 @@ def robots_classes():
     c['rb_status_299'] = _p(resp(b'User-agent: *\nDisallow:\n', status=b'HTTP/1.1 299 Odd', ct=b'text/plain'))
     c['rb_redirect_bad'] = _p(resp(b'', status=b'HTTP/1.1 302 Found', headers=(b'Location: http://[',)))
     c['rb_close_immediately'] = _p(b'')
+    # the control file "moved" to something that is not an HTTP URL: nothing to fetch, no rules
+    c['rb_redirect_mailto'] = _p(resp(b'', status=b'HTTP/1.1 302 Found', headers=(b'Location: mailto:webmaster@b.test',)))
+    c['rb_redirect_data'] = _p(resp(b'', status=b'HTTP/1.1 301 Moved', headers=(b'Location: data:text/plain,User-agent:%20*',)))
+    c['rb_redirect_ftp'] = _p(resp(b'', status=b'HTTP/1.1 302 Found', headers=(b'Location: ftp://b.test/robots.txt',)))
+    # a rule with a run of wildcards (each becomes ".*" in the parser's regular expression)
+    c['rb_star_run'] = _p(resp(b'User-agent: *\nDisallow: /' + b'*' * 40 + b'x\n', ct=b'text/plain'), path='/h' + 'a' * 60)
     c['rb_gzip_bad'] = _p(resp(b'\x1f\x8b\x08\x00' + b'\xff' * 20, ct=b'text/plain', headers=(b'Content-Encoding: gzip',)))
     c['rb_oversize_line'] = _p(b'HTTP/1.1 200 OK\r\nX-Big: ' + big + big)
     c['rb_chunk_nl_oversize'] = _p(chunked(b'5\r\nhello' + big + b'\r\n0\r\n\r\n', ct=b'text/plain'))
